@@ -543,3 +543,62 @@ def P31(m, R):
                                 'string' if kind == 'str' else 'list'), construct=cons)
         else:
             R.undecided(f, scan, 'the token list %s is not built before the scan for this input form' % items, construct=cons)
+
+
+@rule('P32', 'seam-merge-precedence: __iadd__ lets the receiver\'s closing settings run on into the appended string only when they have, among each other, '
+             'the precedence the appended string gives them', floor=1)
+def P32(m, R):
+    """The merge test compares the receiver's stop list prefix with the appended string's start list by value.  The objects that run on are
+    the receiver's; their precedence in the result is their order in the receiver's *active* list, which is neither of the two lists
+    compared (a stop list is in removal order).  The test must therefore also compare the active settings at the receiver's end --
+    restricted to the merged objects, in their order -- with the start list."""
+    ro = m.roles
+    f = m.fn('AnsiString.__iadd__')
+    cons = 'seam merge precedence'
+    merge = None
+    for n in f.walk():
+        if isinstance(n, ast.If):
+            for c in ast.walk(n.test):
+                if isinstance(c, ast.Compare) and len(c.ops) == 1 and isinstance(c.ops[0], ast.Eq):
+                    sides = [c.left, c.comparators[0]]
+                    sl = [x for x in sides if isinstance(x, ast.Subscript) and isinstance(x.slice, ast.Slice) and norm(x.value).endswith('.' + ro.STOP)]
+                    st = [x for x in sides if isinstance(x, ast.Attribute) and x.attr == ro.START]
+                    if sl and st and merge is None:
+                        merge = (n, c, sl[0], st[0])
+    if merge is None:
+        R.undecided(f, f.node, 'the seam merge test (stop-list prefix == start list) was not found', construct=cons)
+        return
+    node, cmp_, prefix, start = merge
+    conj = list(node.test.values) if isinstance(node.test, ast.BoolOp) and isinstance(node.test.op, ast.And) else [node.test]
+    # names bound to the active settings of the receiver (ansi_settings_at(..) on self, or the iterator's list)
+    active_names = set()
+    for a in f.walk():
+        if isinstance(a, ast.Assign) and isinstance(a.targets[0], ast.Name) and isinstance(a.value, ast.Call) and call_name(a.value) == 'ansi_settings_at' and \
+                is_name(getattr(a.value.func, 'value', None), f.self_name):
+            active_names.add(a.targets[0].id)
+    ordered = None
+    for c in conj:
+        if c is cmp_ or not (isinstance(c, ast.Compare) and len(c.ops) == 1 and isinstance(c.ops[0], ast.Eq)):
+            continue
+        sides = [c.left, c.comparators[0]]
+        comp = next((x for x in sides if isinstance(x, (ast.ListComp,))), None)
+        other = next((x for x in sides if x is not comp), None)
+        if comp is None or other is None or norm(other) != norm(start):
+            continue
+        g = comp.generators[0]
+        src_ok = (isinstance(g.iter, ast.Name) and g.iter.id in active_names) or (call_name(g.iter) == 'ansi_settings_at' and is_name(getattr(g.iter.func, 'value', None), f.self_name))
+        by_identity = any(isinstance(x, ast.Call) and call_name(x) in (ro.IDFIND1,) and len(x.args) == 2 and norm(x.args[1]) == norm(prefix) for i_ in g.ifs for x in ast.walk(i_)) or \
+            any(isinstance(x, ast.Compare) and isinstance(x.ops[0], ast.Is) for i_ in g.ifs for x in ast.walk(i_))
+        if src_ok and by_identity and norm(comp.elt) == norm(g.target):
+            ordered = c
+    if ordered is not None:
+        R.ok(f, ordered, 'the merge also requires the receiver\'s active settings, restricted to the merged objects and in their order, to equal the start list', construct=cons)
+        return
+    mentions_active = any(any(isinstance(x, ast.Name) and x.id in active_names for x in ast.walk(c)) or
+                          any(isinstance(x, ast.Call) and call_name(x) == 'ansi_settings_at' for x in ast.walk(c)) for c in conj)
+    if mentions_active:
+        R.undecided(f, node, 'the merge test looks at the active settings in a form that is not recognised: %s' % short(node.test), construct=cons)
+        return
+    R.viol(f, node, 'the seam is merged when %s -- both lists are compared by value, but the settings that run on are the receiver\'s and keep the precedence they have in '
+                    'its active list, which is the order in which they *started*, not the order of its stop list: a = "abcd" with blue on [2,4) then red on [0,4) (active: red, blue), '
+                    'b = "xy" with blue then red (red on top); a + b reports 31;34 (blue on top) for "xy"' % short(cmp_), construct=cons)
